@@ -26,14 +26,18 @@ static size_t put(unsigned char *o, const char *s){ size_t k=0; for(;s[k];k++) o
 void harness(void){
     static htp_cfg_t CFG; static htp_connp_t C; static htp_tx_t TX; static htp_conn_t CONN; static htp_decompressor_t OLD, CUR;
     C.cfg=&CFG; C.conn=&CONN; C.in_tx=&TX; C.out_tx=&TX; TX.connp=&C; TX.cfg=&CFG;
+    static htp_cfg_t CFG0;
+    /* every byte of the shared configuration is symbolic (then the fields the function reads are constrained below) */
+    { unsigned char *cb=(unsigned char*)&CFG; for(size_t i=0;i<sizeof CFG;i++) cb[i]=in_u8(); CFG.hook_response_headers=NULL; CFG.hook_request_body_data=NULL; CFG.hook_response_body_data=NULL; }
 #if FUNC==1
     int64_t el=(int64_t)(in_ull()>>2), ml=(int64_t)(in_ull()>>13); int32_t lim=(int32_t)in_range(0,INT32_MAX);   /* the limit field is int32_t; the setter clamps to INT32_MAX */ size_t len=in_size_le(8192);
     CFG.compression_bomb_limit=lim; CFG.compression_time_limit=1<<30; C.out_decompressor=&CUR; C.req_decompressor=&CUR; CUR.nb_callbacks=in_uint()&0xffff;
-    htp_tx_data_t d; d.tx=&TX; d.data=(unsigned char*)"x"; d.len=len; rc_hook=in_bool()?HTP_OK:HTP_ERROR;
+    htp_tx_data_t d; d.tx=&TX; d.data=(unsigned char*)"x"; d.len=len; rc_hook=in_bool()?HTP_OK:HTP_ERROR; CFG0=CFG;
     unsigned side=in_bool(); htp_status_t rc;
     if(side){ TX.response_entity_len=el; TX.response_message_len=ml; rc=htp_tx_res_process_body_data_decompressor_callback(&d); assert(TX.response_entity_len==el+(int64_t)len); }
     else { TX.request_entity_len=el; TX.request_message_len=ml; rc=htp_tx_req_process_body_data_decompressor_callback(&d); assert(TX.request_entity_len==el+(int64_t)len); }
     assert(n_hookbody==1);
+    assert(memcmp(&CFG0,&CFG,sizeof CFG)==0);          /* C19: the shared configuration is never written while parsing */
     { __int128 e=(__int128)el+len; int bomb = e>lim && e>(__int128)2048*ml;
       if(rc_hook!=HTP_OK) assert(rc==HTP_ERROR); else assert((rc==HTP_ERROR)==bomb);
       if(rc==HTP_OK && rc_hook==HTP_OK) assert(e<=lim || e<=(__int128)2048*ml);          /* a block is only accepted inside the bound */
@@ -45,8 +49,9 @@ void harness(void){
     H_CE.value=bstr_dup_mem(val,n); __CPROVER_assume(H_CE.value); has_ce=1;
     int ll=(int)in_range(0,3), lz=(int)in_range(0,2); CFG.response_decompression_layer_limit=ll; CFG.response_lzma_layer_limit=lz; CFG.response_decompression_enabled=in_bool();
     unsigned stale=in_bool(); if(stale){ C.out_decompressor=&OLD; OLD.next=NULL; }
-    TX.response_progress=HTP_RESPONSE_HEADERS;
+    TX.response_progress=HTP_RESPONSE_HEADERS; CFG0=CFG;
     htp_status_t rc=htp_tx_state_response_headers(&TX);
+    assert(memcmp(&CFG0,&CFG,sizeof CFG)==0);
     /* chain as built */
     unsigned chain=0; for(htp_decompressor_t *p=C.out_decompressor;p&&chain<6;p=p->next) if(p!=&OLD) chain++;
     assert(chain==n_create);
